@@ -250,6 +250,10 @@ EvalE(e, st) ==
          IF ~f.found \/ f.v.t = "nil" THEN ErrUnk(r.st)
          ELSE IF f.d # Depth(r.st) THEN Unspec(r.st)   \* assigning to an outer scope's variable: not specified
          ELSE Ok(Nil, SetTop(r.st, e.n, r.v))
+    \* assignment to an element of a collection (x[i] = e): only that it is total and that the assigned value
+    \* is evaluated is specified here
+    [] e.t = "idxassign" ->
+         LET r == EvalE(e.e, st) IN IF r.k # "ok" THEN NoUnk(r) ELSE Unspec(r.st)
     [] e.t = "brk"  -> R("brk", Nil, <<>>, st, FALSE, FALSE)
     [] e.t = "cnt"  -> R("cnt", Nil, <<>>, st, FALSE, FALSE)
     [] e.t = "if"   ->
@@ -337,6 +341,8 @@ TimeOut(r) ==
 \* a statement inside a block: result.out = what it adds to the block's value
 ExecStmt(s, st) ==
   CASE s.t = "text" -> R("ok", Nil, <<H(s.s)>>, st, FALSE, FALSE)
+    \* literal text written with an escape: the source spells s.src, the output is s.s
+    [] s.t = "etext" -> R("ok", Nil, <<H(s.s)>>, st, FALSE, FALSE)
     [] s.t = "cmt"  -> R("ok", Nil, <<>>, st, FALSE, FALSE)
     [] s.t = "emit" -> LET r == EvalE(s.e, st) IN
                        IF r.k = "ok" THEN (IF r.v.t = "time" THEN TimeOut(r)
